@@ -137,11 +137,6 @@ theorem encodeExts_eq_nil (l : List ExtItem) (h : (encodeExts l).length = 0) : l
   | nil => rfl
   | cons e es => simp [encodeExts, encodeExt_length] at h
 
-/-- The documented answer for an extension list. -/
-def specExts (exts : List ExtItem) : Except Err Bytes :=
-  match firstHostName exts with
-  | some n => .ok (trimDot n)
-  | none => .error .notFound
 
 theorem findSniFrom_encode (s : Loc) (exts : List ExtItem) (pre S : Bytes)
     (hwf : ∀ e ∈ exts, ∀ t d, e = .other t d → t ≠ 0)
@@ -342,7 +337,6 @@ theorem extractSni_encode (s : Loc) (ch : ClientHello) (hwf : ch.WF)
     rw [this]
     simp only [specResult, specExts]
     rw [hx]
-    rfl
 
 /-! ## Totality on the builtin locator: every access is inside the data -/
 
@@ -449,10 +443,6 @@ theorem slice_slice (b : Bytes) (a c p q : Nat) (hq : q ≤ c - a) :
   congr 1
   omega
 
-/-- The name is a literal host_name entry of the data: type byte 0, two-byte length, the name. -/
-def CarriedIn (x : Bytes) (d : Bytes) : Prop :=
-  ∃ k n, k + 3 + n ≤ x.length ∧ x.getD k 0 = 0 ∧ be16 (x.getD (k + 1) 0) (x.getD (k + 2) 0) = n ∧
-    d = trimDot (slice x (k + 3) (k + 3 + n))
 
 theorem sniLoop_builtin_sound (x : Bytes) (iNext j : Nat) (h : iNext ≤ x.length) (d : Bytes) :
     sniLoop (.builtin x) iNext j = .ok (some d) → CarriedIn x d := by
@@ -569,11 +559,6 @@ theorem sniffTls_record_prefix (rm : Nat) (hs : Bytes) (k : Nat) (h5 : 5 ≤ k)
   simp only [List.length_cons, List.getD_cons_zero, List.getD_cons_succ, be16_u16, List.drop_succ_cons, List.drop_zero]
   rw [if_neg (by omega), if_neg (by simp), if_pos (by simp; omega)]
 
-/-- What the TLS branch of `sniffGroup` answers for a complete record carrying `hs`. -/
-def tlsAnswer (hs : Bytes) : Except Err Bytes :=
-  match extractSni (.builtin hs) with
-  | .ok d => .ok (normalizeDomain d)
-  | .error e => .error e
 
 theorem sniffHttp_record (rm : Nat) (hs extra : Bytes) :
     sniffHttp (record rm hs ++ extra) = .error .notApplicable := by
@@ -798,11 +783,6 @@ theorem hostFromLines_reqline (m t : Bytes) (rest : List Bytes) (hm : m ∈ http
     rw [method_line_not_host m t k v hm hc]
     simp
 
-/-- Well-formed request head: a known method, no CRLF inside the request line or a header line,
-no colon inside a header name. -/
-def HttpHead.WF (h : HttpHead) : Prop :=
-  h.method ∈ httpMethods ∧ noCRLF (h.method ++ [32] ++ h.target) = true ∧
-  ∀ kv ∈ h.headers, noCRLF (kv.1 ++ [58] ++ kv.2) = true ∧ 58 ∉ kv.1
 
 theorem sniffHttp_encodeHead (h : HttpHead) (hwf : h.WF) :
     sniffHttp (encodeHead h) = hostSpec h.headers := by
@@ -948,8 +928,6 @@ theorem extractSni_builtin_sound' (b d : Bytes) : extractSni (.builtin b) = .ok 
 
 /-! ## The linear locator over blocks that are slices of one stream -/
 
-/-- The block holds exactly the bytes `[off, stop)` of the stream `S`. -/
-def Within (S : Bytes) (b : Block) : Prop := b.stop ≤ S.length ∧ b.data = slice S b.off b.stop
 
 theorem slice_append_slice (S : Bytes) (a b c : Nat) (h1 : a ≤ b) (h2 : b ≤ c) (_h3 : c ≤ S.length) :
     slice S a b ++ slice S b c = slice S a c := by
@@ -1122,7 +1100,6 @@ theorem sorted_sortBlocks (l : List Block) : SortedOff (sortBlocks l) := by
   | nil => simp [sortBlocks, SortedOff]
   | cons z zs ih => exact sorted_insertBlock z _ ih
 
-def covers (b : Block) (p : Nat) : Prop := b.off ≤ p ∧ p < b.stop
 
 theorem stop_mk (o : Nat) (d : Bytes) : (Block.mk o d).stop = o + d.length := rfl
 
@@ -1215,8 +1192,6 @@ theorem mergeInto_covers (rest : List Block) (cur : Block) (hs : SortedOff (cur 
     · simp only [List.mem_cons, exists_eq_or_imp]
       rw [ih nx (by unfold SortedOff; rw [List.pairwise_cons]; exact ⟨hs2, hs3⟩)]
 
-/-- Output blocks are strictly separated: a gap of at least one byte between neighbours. -/
-def Separated (l : List Block) : Prop := l.Pairwise (fun a b => a.stop < b.off)
 
 theorem mergeInto_sep (rest : List Block) (cur : Block) (hs : SortedOff (cur :: rest)) :
     Separated (mergeInto cur rest) ∧ ∀ b ∈ mergeInto cur rest, cur.off ≤ b.off := by
@@ -1334,13 +1309,6 @@ theorem complete_single (S : Bytes) (hS : 0 < S.length) (out : List Block)
       rw [hx, hy] at this
       unfold Block.stop at this; omega
 
-/-- The successive `ReassembleCryptos` calls of one sniffing session, one per decrypted packet. -/
-def feedPayloads : List Block → List Bytes → Except Err (List Block)
-  | cr, [] => .ok cr
-  | cr, p :: ps =>
-    match reassemble cr p with
-    | .ok cr' => feedPayloads cr' ps
-    | .error e => .error e
 
 theorem feed_complete_aux (S : Bytes) (hS : 0 < S.length) (flight : List (Bytes × List Block))
     (hparse : ∀ pf ∈ flight, parseFrames pf.1.length pf.1 = .ok pf.2)
@@ -1436,6 +1404,336 @@ theorem extractSni_complete (ch : ClientHello) (hwf : ch.WF) :
     refine ⟨.linear [⟨0, handshake ch⟩] (0 + a) (b - a + 1), rfl, ?_, ?_⟩
     · simpa using reads_linear_single (handshake ch) a b (b - a + 1) hab hb (by omega)
     · simp [Loc.len]
+
+
+/-! ## Varints and frames: encode then parse -/
+
+theorem foldl_beBytes (n v acc : Nat) :
+    (beBytes n v).foldl (fun x y => x * 256 + y) acc = acc * 256 ^ n + v % 256 ^ n := by
+  induction n generalizing acc with
+  | zero => simp [beBytes, Nat.mod_one]
+  | succ n ih =>
+    simp only [beBytes, List.foldl_cons]
+    rw [ih]
+    have h1 : v % 256 ^ (n + 1) = (v / 256 ^ n % 256) * 256 ^ n + v % 256 ^ n := by
+      rw [Nat.pow_succ, Nat.mod_mul, Nat.add_comm, Nat.mul_comm]
+    rw [h1, Nat.pow_succ]
+    rw [Nat.add_mul, Nat.mul_assoc, Nat.mul_comm 256 (256 ^ n)]
+    omega
+
+theorem beBytes_length (n v : Nat) : (beBytes n v).length = n := by
+  induction n with
+  | zero => rfl
+  | succ n ih => simp [beBytes, ih]
+
+theorem uvarint_encode (v k : Nat) (rest : Bytes) (h : VarintFits v k) :
+    uvarint (encVarint v k ++ rest) = .ok (v, 2 ^ k) := by
+  obtain ⟨hk, hv⟩ := h
+  have hpos : 0 < 256 ^ (2 ^ k - 1) := Nat.pow_pos (by decide)
+  have htop : v / 256 ^ (2 ^ k - 1) < 64 := by
+    rw [Nat.div_lt_iff_lt_mul hpos]; exact hv
+  have hk1 : 1 ≤ 2 ^ k := Nat.one_le_two_pow
+  unfold uvarint encVarint
+  simp only [List.cons_append]
+  have hb0 : (k * 64 + v / 256 ^ (2 ^ k - 1)) / 64 = k := by
+    generalize v / 256 ^ (2 ^ k - 1) = d at htop ⊢; omega
+  have hb1 : (k * 64 + v / 256 ^ (2 ^ k - 1)) % 64 = v / 256 ^ (2 ^ k - 1) := by
+    generalize v / 256 ^ (2 ^ k - 1) = d at htop ⊢; omega
+  simp only [hb0, hb1]
+  rw [if_neg (by simp [beBytes_length]; omega)]
+  have htake : (((k * 64 + v / 256 ^ (2 ^ k - 1)) :: (beBytes (2 ^ k - 1) v ++ rest)).take (2 ^ k)).drop 1
+      = beBytes (2 ^ k - 1) v := by
+    have : 2 ^ k = (2 ^ k - 1) + 1 := by omega
+    rw [this, List.take_succ_cons, List.drop_succ_cons, List.drop_zero]
+    have hl := beBytes_length (2 ^ k - 1) v
+    exact List.take_left' hl
+  rw [htake, foldl_beBytes]
+  congr 2
+  have := Nat.div_add_mod v (256 ^ (2 ^ k - 1))
+  rw [Nat.mul_comm] at this
+  exact this
+
+theorem encVarint_length (v k : Nat) : (encVarint v k).length = 2 ^ k := by
+  have : 1 ≤ 2 ^ k := Nat.one_le_two_pow
+  simp [encVarint, beBytes_length]; omega
+
+theorem uvarint_small (c : Nat) (rest : Bytes) (h : c < 64) : uvarint (c :: rest) = .ok (c, 1) := by
+  unfold uvarint
+  have h0 : c / 64 = 0 := by omega
+  have h1 : c % 64 = c := by omega
+  simp [h0, h1]
+
+theorem extractFrame_crypto (off : Nat) (data : Bytes) (ko kl : Nat) (rest : Bytes)
+    (h : (Frame.crypto off data ko kl).Fits) :
+    extractFrame (encodeFrame (.crypto off data ko kl) ++ rest)
+      = .ok (some ⟨off, data⟩, (encodeFrame (.crypto off data ko kl)).length) := by
+  obtain ⟨ho, hl⟩ := h
+  have e : encodeFrame (.crypto off data ko kl) ++ rest
+      = 6 :: (encVarint off ko ++ (encVarint data.length kl ++ (data ++ rest))) := by
+    simp [encodeFrame, List.append_assoc]
+  have hlen : (encodeFrame (.crypto off data ko kl)).length = 1 + 2 ^ ko + 2 ^ kl + data.length := by
+    simp [encodeFrame, encVarint_length]; omega
+  unfold extractFrame
+  rw [e, uvarint_small 6 _ (by decide)]
+  simp only [List.drop_succ_cons, List.drop_zero]
+  rw [if_neg (by decide), if_neg (by decide), if_pos trivial, uvarint_encode off ko _ ho]
+  simp only []
+  have hd : List.drop (1 + 2 ^ ko) (6 :: (encVarint off ko ++ (encVarint data.length kl ++ (data ++ rest))))
+      = encVarint data.length kl ++ (data ++ rest) := by
+    rw [Nat.add_comm, List.drop_succ_cons]
+    exact List.drop_left' (encVarint_length off ko)
+  rw [hd, uvarint_encode data.length kl _ hl]
+  simp only []
+  have htot : (6 :: (encVarint off ko ++ (encVarint data.length kl ++ (data ++ rest)))).length
+      = 1 + 2 ^ ko + 2 ^ kl + data.length + rest.length := by
+    simp [encVarint_length]; omega
+  rw [if_neg (by rw [htot]; omega), hlen]
+  have hs : slice (6 :: (encVarint off ko ++ (encVarint data.length kl ++ (data ++ rest))))
+      (1 + 2 ^ ko + 2 ^ kl) (1 + 2 ^ ko + 2 ^ kl + data.length) = data := by
+    have := slice_mid' (6 :: (encVarint off ko ++ encVarint data.length kl)) data rest data.length rfl
+    have e2 : (6 :: (encVarint off ko ++ encVarint data.length kl)).length = 1 + 2 ^ ko + 2 ^ kl := by
+      simp [encVarint_length]; omega
+    rw [e2] at this
+    simpa [List.append_assoc] using this
+  rw [hs]
+
+theorem takeWhile_zeros (n : Nat) (c : Nat) (rest : Bytes) (hc : c ≠ 0) :
+    ((List.replicate n 0 ++ c :: rest).takeWhile (· == 0)).length = n := by
+  have hcb : (c == 0) = false := by simp [hc]
+  induction n with
+  | zero => simp [hcb]
+  | succ n ih => simpa [List.replicate_succ, List.takeWhile] using ih
+
+theorem takeWhile_zeros_end (n : Nat) : ((List.replicate n 0).takeWhile (· == 0)).length = n := by
+  induction n with
+  | zero => rfl
+  | succ n ih => simpa [List.replicate_succ] using ih
+
+theorem extractFrame_padding (n c : Nat) (rest : Bytes) (hc : c ≠ 0) :
+    extractFrame (List.replicate (n + 1) 0 ++ c :: rest) = .ok (none, n + 1) := by
+  unfold extractFrame
+  rw [List.replicate_succ, List.cons_append, uvarint_small 0 _ (by decide)]
+  simp only [List.drop_succ_cons, List.drop_zero]
+  rw [if_neg (by decide), if_pos trivial, takeWhile_zeros n c rest hc, Nat.add_comm]
+
+theorem extractFrame_padding_end (n : Nat) :
+    extractFrame (List.replicate (n + 1) 0) = .ok (none, n + 1) := by
+  unfold extractFrame
+  rw [List.replicate_succ, uvarint_small 0 _ (by decide)]
+  simp only [List.drop_succ_cons, List.drop_zero]
+  rw [if_neg (by decide), if_pos trivial, takeWhile_zeros_end n, Nat.add_comm]
+
+theorem extractFrame_ping (rest : Bytes) : extractFrame (1 :: rest) = .ok (none, 1) := by
+  unfold extractFrame
+  rw [uvarint_small 1 _ (by decide)]
+  simp
+
+theorem encodeFrame_head (f : Frame) : ∃ c r, encodeFrame f = c :: r ∧ c ≠ 0 := by
+  cases f with
+  | crypto off data ko kl => exact ⟨6, _, rfl, by decide⟩
+  | ping => exact ⟨1, _, rfl, by decide⟩
+
+theorem extractFrame_frame (f : Frame) (rest : Bytes) (h : f.Fits) :
+    extractFrame (encodeFrame f ++ rest) = .ok (f.block?, (encodeFrame f).length) := by
+  cases f with
+  | crypto off data ko kl => exact extractFrame_crypto off data ko kl rest h
+  | ping => simpa [encodeFrame, Frame.block?] using extractFrame_ping rest
+
+theorem parseFrames_frame (fuel : Nat) (f : Frame) (rest : Bytes) (h : f.Fits) :
+    parseFrames (fuel + 1) (encodeFrame f ++ rest)
+      = match parseFrames fuel rest with
+        | .ok r => .ok (f.block?.toList ++ r)
+        | .error e => .error e := by
+  obtain ⟨c, r, hcr, _⟩ := encodeFrame_head f
+  rw [parseFrames, if_neg (by rw [hcr]; simp), extractFrame_frame f rest h]
+  simp only []
+  rw [List.drop_left]
+  cases parseFrames fuel rest <;> rfl
+
+theorem parseFrames_encode (items : List Item) (tp : Nat) (hfit : ∀ it ∈ items, it.frame.Fits)
+    (fuel : Nat) (hfuel : (encodeItems items tp).length ≤ fuel) :
+    parseFrames fuel (encodeItems items tp) = .ok (cryptoBlocks items) := by
+  induction items generalizing fuel with
+  | nil =>
+    simp only [encodeItems, cryptoBlocks]
+    cases tp with
+    | zero => cases fuel <;> simp [parseFrames]
+    | succ n =>
+      cases fuel with
+      | zero => simp [encodeItems] at hfuel
+      | succ fuel =>
+        rw [parseFrames, if_neg (by simp [List.replicate_succ]), extractFrame_padding_end n]
+        simp only []
+        rw [List.drop_of_length_le (by simp)]
+        cases fuel <;> simp [parseFrames]
+  | cons it rest ih =>
+    obtain ⟨pad, f⟩ := it
+    have hf : f.Fits := hfit ⟨pad, f⟩ List.mem_cons_self
+    have ih' := ih (fun it hit => hfit it (List.mem_cons_of_mem _ hit))
+    obtain ⟨c, r, hcr, hc0⟩ := encodeFrame_head f
+    have hflen : 1 ≤ (encodeFrame f).length := by rw [hcr]; simp
+    simp only [encodeItems, cryptoBlocks]
+    simp only [encodeItems, List.length_append, List.length_replicate] at hfuel
+    cases pad with
+    | zero =>
+      simp only [List.replicate_zero, List.nil_append]
+      cases fuel with
+      | zero => omega
+      | succ fuel =>
+        rw [parseFrames_frame fuel f _ hf, ih' fuel (by omega)]
+    | succ n =>
+      cases fuel with
+      | zero => omega
+      | succ fuel =>
+        cases fuel with
+        | zero => omega
+        | succ fuel =>
+          have e : List.replicate (n + 1) 0 ++ (encodeFrame f ++ encodeItems rest tp)
+              = List.replicate (n + 1) 0 ++ c :: (r ++ encodeItems rest tp) := by rw [hcr]; rfl
+          rw [parseFrames, if_neg (by simp [List.replicate_succ]), e, extractFrame_padding n c _ hc0]
+          simp only []
+          rw [List.drop_left' (by simp), ← List.cons_append, ← hcr]
+          rw [parseFrames_frame fuel f _ hf, ih' fuel (by omega)]
+          simp
+
+
+/-! ## Wrappers used by the property theorems -/
+
+theorem sniffTls_err (buf : Bytes) (e : Err) (h : sniffTls buf = .error e) :
+    e = .notApplicable ∨ e = .needMore ∨ e = .notFound := by
+  unfold sniffTls at h
+  split at h
+  · cases h; left; rfl
+  split at h
+  · cases h; left; rfl
+  simp only [] at h
+  split at h
+  · cases h; right; left; rfl
+  · rcases extractSni_builtin_err _ e h with h | h
+    · left; exact h
+    · right; right; exact h
+
+theorem sniffTls_sound (buf d : Bytes) (h : sniffTls buf = .ok d) : CarriedIn buf d := by
+  unfold sniffTls at h
+  split at h
+  · cases h
+  split at h
+  · cases h
+  simp only [] at h
+  split at h
+  · cases h
+  · rename_i h5 _ hlen
+    have hx := extractSni_sound _ _ (soundAt_builtin_slice _) d h
+    have e : (buf.drop 5).take (be16 (buf.getD 3 0) (buf.getD 4 0))
+        = slice buf 5 (5 + be16 (buf.getD 3 0) (buf.getD 4 0)) := by
+      unfold slice; congr 1; omega
+    rw [e] at hx
+    simp only [List.length_drop] at hlen
+    exact carriedIn_slice buf _ _ d (by omega) hx
+
+
+theorem tlsAnswer_handshake (ch : ClientHello) (hwf : ch.WF) : tlsAnswer (handshake ch) = tcpAnswer ch := by
+  unfold tlsAnswer tcpAnswer
+  rw [extractSni_encode (.builtin (handshake ch)) ch hwf (reads_builtin _) rfl (sliceOk_builtin _)]
+
+/-! ### `NormalizeDomain` on ordinary host names -/
+
+
+theorem lower_nameChar (c : Nat) (h : isNameChar c = true) : isNameChar (toLowerAscii c) = true := by
+  unfold toLowerAscii
+  split
+  · rename_i hc
+    unfold isNameChar isAsciiSpace
+    have : c + 32 ≥ 97 := by omega
+    have h2 : c + 32 ≤ 122 := by omega
+    simp; omega
+  · exact h
+
+theorem dropWhile_none (p : Nat → Bool) (l : Bytes) (h : ∀ c ∈ l, p c = false) :
+    (l.dropWhile p = l) := by
+  cases l with
+  | nil => rfl
+  | cons x xs => simp [List.dropWhile, h x List.mem_cons_self]
+
+theorem trimSpace_nameChars (l : Bytes) (h : ∀ c ∈ l, isNameChar c = true) : trimSpace l = l := by
+  have hsp : ∀ c ∈ l, isAsciiSpace c = false := by
+    intro c hc
+    have := h c hc
+    unfold isNameChar at this
+    cases hs : isAsciiSpace c <;> simp_all
+  unfold trimSpace dropRightWhile
+  rw [dropWhile_none _ l hsp, dropWhile_none _ l.reverse (fun c hc => hsp c (List.mem_reverse.mp hc))]
+  simp
+
+theorem idxOf?_none (c : Nat) (l : Bytes) (h : c ∉ l) : l.idxOf? c = none := by
+  rw [List.idxOf?_eq_none_iff]; exact h
+
+theorem normalizeDomain_name (n : Bytes) (h : ∀ c ∈ n, isNameChar c = true) :
+    normalizeDomain n = trimDot (lower n) := by
+  have hl : ∀ c ∈ lower n, isNameChar c = true := by
+    intro c hc
+    simp only [lower, List.mem_map] at hc
+    obtain ⟨a, ha, rfl⟩ := hc
+    exact lower_nameChar a (h a ha)
+  have hne : ∀ x, x = 58 ∨ x = 91 ∨ x = 93 → x ∉ lower n := by
+    intro x hx hmem
+    have := hl x hmem
+    unfold isNameChar at this
+    rcases hx with rfl | rfl | rfl <;> simp at this
+  unfold normalizeDomain
+  simp only []
+  rw [trimSpace_nameChars _ hl]
+  have hlast : (lower n).getLast? ≠ some 93 := by
+    intro hx
+    exact hne 93 (by simp) (List.mem_of_getLast? hx)
+  rw [if_neg hlast]
+  have hsp : splitHostPort (lower n) = none := by
+    unfold splitHostPort lastIndexOf
+    rw [idxOf?_none 58 _ (fun hm => hne 58 (by simp) (List.mem_reverse.mp hm))]
+  rw [hsp]
+
+/-! ### Within is preserved by every reassembly step -/
+
+theorem feed_within (S : Bytes) (flight : List (Bytes × List Block))
+    (hparse : ∀ pf ∈ flight, parseFrames pf.1.length pf.1 = .ok pf.2)
+    (hw : ∀ pf ∈ flight, ∀ b ∈ pf.2, Within S b) (cr cr' : List Block)
+    (hcr : ∀ b ∈ cr, Within S b)
+    (h : feedPayloads cr (flight.map Prod.fst) = .ok cr') : ∀ b ∈ cr', Within S b := by
+  induction flight generalizing cr with
+  | nil => simp only [List.map_nil, feedPayloads] at h; cases h; exact hcr
+  | cons pf rest ih =>
+    obtain ⟨p, fs⟩ := pf
+    have hp : parseFrames p.length p = .ok fs := hparse (p, fs) List.mem_cons_self
+    simp only [List.map_cons, feedPayloads, reassemble, hp] at h
+    have hwall : ∀ b ∈ cr ++ fs, Within S b := by
+      intro b hb
+      rcases List.mem_append.mp hb with h | h
+      · exact hcr b h
+      · exact hw (p, fs) List.mem_cons_self b h
+    exact ih (fun pf hpf => hparse pf (List.mem_cons_of_mem _ hpf))
+      (fun pf hpf => hw pf (List.mem_cons_of_mem _ hpf)) _ (mergeBlocks_spec S _ hwall).1 h
+
+/-! ### Header unprotection in place, then the deferred restore -/
+
+theorem unprotect_restore (buf : Bytes) (pnOff f0 : Nat) (pn : Bytes) (h1 : 1 ≤ pnOff)
+    (h2 : pnOff + 4 ≤ buf.length) (hpn : pn.length = 4) :
+    restoreHeader (unprotectInPlace buf pnOff f0 pn) pnOff (buf.getD 0 0) (slice buf pnOff (pnOff + 4)) = buf := by
+  obtain ⟨b0, rest, rfl⟩ : ∃ b0 rest, buf = b0 :: rest := by
+    cases buf with
+    | nil => simp at h2
+    | cons b0 rest => exact ⟨b0, rest, rfl⟩
+  obtain ⟨k, rfl⟩ : ∃ k, pnOff = k + 1 := ⟨pnOff - 1, by omega⟩
+  simp only [List.length_cons] at h2
+  have hX : unprotectInPlace (b0 :: rest) (k + 1) f0 pn = f0 :: (rest.take k ++ (pn ++ (rest.drop k).drop 4)) := by
+    simp [unprotectInPlace, List.take_of_length_le (Nat.le_of_eq hpn), hpn]
+  have hraw : slice (b0 :: rest) (k + 1) (k + 1 + 4) = (rest.drop k).take 4 := by
+    simp [slice]
+  rw [hX, hraw]
+  have hrl : ((rest.drop k).take 4).length = 4 := by simp; omega
+  simp only [restoreHeader, List.set_cons_zero, List.take_succ_cons, List.drop_succ_cons, List.getD_cons_zero, hrl]
+  rw [List.take_left' (by simp; omega), List.drop_left' (by simp; omega), List.drop_left' hpn]
+  rw [List.take_append_drop]
+  simp
 
 
 end DaeVerif.C06
